@@ -71,6 +71,15 @@ class ReplyDomain(Domain):
             if isinstance(v, tuple):
                 return [("ok", TupleV(tuple(Const(x) for x in v)), state)]
             return [("ok", Const(v), state)]
+        if isinstance(fval, tuple) and fval and fval[0] == "cmeth" and fval[2] == "encode" and isinstance(fval[1].v, str) and fval[1].v.isascii() and len(args) <= 1 and not kwargs:
+            # text of ASCII characters only is the same bytes under every codec a client can be configured with
+            # (ascii, utf-8, latin-1, ...; an encoding that is not ASCII-compatible could not frame a command line)
+            return [("ok", Const(fval[1].v.encode("ascii")), state)]
+        if name == "isinstance" and len(args) == 2 and isinstance(args[0], Const) and len(node.args) == 2:
+            names = [x.id for x in (node.args[1].elts if isinstance(node.args[1], ast.Tuple) else [node.args[1]]) if isinstance(x, ast.Name)]
+            types = {"str": str, "bytes": bytes, "int": int, "bool": bool, "float": float, "bytearray": bytearray, "list": list, "tuple": tuple, "dict": dict}
+            if names and len(names) == (len(node.args[1].elts) if isinstance(node.args[1], ast.Tuple) else 1) and all(n_ in types for n_ in names) and not isinstance(args[0].v, (tuple, frozenset)):
+                return [("ok", Const(isinstance(args[0].v, tuple(types[n_] for n_ in names))), state)]
         if name == "int" and len(args) == 1 and isinstance(args[0], Const):
             try:
                 return [("ok", Const(int(args[0].v)), state)]
@@ -96,6 +105,10 @@ class ReplyDomain(Domain):
         return TOP
 
 
+class ReaderV(namedtuple("ReaderV", "name kw")):
+    """A reader function of base.py as a value (possibly with arguments bound by functools.partial)."""
+
+
 class Val(namedtuple("Val", "tag")):
     """A caller-supplied or deserialised value: nothing is known about its truthiness or whether it is None."""
 
@@ -113,7 +126,7 @@ class StoreDomain(ExactCollections, ReplyDomain):
         self.readers = set(readers)
         self.base = prog.module("pymemcache/client/base.py")
 
-    global_keys = ("#nread", "#overread", "#nsend", "#imprecise", "#nkeychk")
+    global_keys = ("#nread", "#overread", "#nsend", "#imprecise", "#nkeychk", "#reads")
 
     def mark_imprecise(self, state, node):
         return state.set("#imprecise", 1)
@@ -122,7 +135,7 @@ class StoreDomain(ExactCollections, ReplyDomain):
         if state.has(name):
             return state.get(name)
         if name in self.readers:
-            return Opaque("reader")
+            return ReaderV(name, ())
         if name in self.base.functions and not state.has(name):
             return FuncRef(name)  # a module-level helper of base.py, as a value (it may be chosen by a conditional)
         if name in self.base.assigns and name.isupper():
@@ -153,6 +166,12 @@ class StoreDomain(ExactCollections, ReplyDomain):
 
     def subscript_load(self, objval, idxval, node, state):
         if isinstance(objval, Const) and isinstance(objval.v, bytes) and isinstance(node.slice, ast.Slice):
+            from .colls import SliceV
+
+            if isinstance(idxval, SliceV):
+                b = [None if x == NONE else (x.v if isinstance(x, Const) else "?") for x in idxval]
+                if all(x is None or (isinstance(x, int) and not isinstance(x, bool)) for x in b) and b[2] != 0:
+                    return Const(objval.v[slice(*b)]), False
             return TOP, False
         return ReplyDomain.subscript_load(self, objval, idxval, node, state)
 
@@ -168,9 +187,13 @@ class StoreDomain(ExactCollections, ReplyDomain):
             res = self.inline(node, self.base.functions[fval.name], args, kwargs, state)
             if res is not None:
                 return res
-        if fval == Opaque("reader") or (name in ("partial", "functools.partial") and args and args[0] == Opaque("reader")):
+        if isinstance(fval, ReaderV) or (name in ("partial", "functools.partial") and args and isinstance(args[0], ReaderV)):
             if name in ("partial", "functools.partial"):
-                return [("ok", Opaque("reader"), state)]
+                return [("ok", ReaderV(args[0].name, args[0].kw + tuple(sorted(kwargs.items(), key=lambda kv: kv[0])) + tuple(("#pos%d" % j, a) for j, a in enumerate(args[1:]))), state)]
+            # which reader is asked for this item, and with which terminator / size (see reads_of)
+            bound = dict(fval.kw)
+            bound.update(kwargs)
+            state = state.set("#reads", state.get("#reads", ()) + ((fval.name, tuple(args[2:]), tuple(sorted(((k, v) for k, v in bound.items() if _hashable_val(v)), key=lambda kv: kv[0]))),))
             i = state.get("#nread", 0)
             if i >= len(self.replies):
                 # the server sends nothing further: the read blocks / times out
@@ -235,7 +258,7 @@ def _show(v):
     return str(v)
 
 
-def script_eval(prog, mname, replies, nkeys=2, noreply=False, ignore_exc=False, full=False, oneshot=False, fault=None, alias=False, noreply_arg="unset", default_noreply=None, keyseq=None):
+def script_eval(prog, mname, replies, nkeys=2, noreply=False, ignore_exc=False, full=False, oneshot=False, fault=None, alias=False, noreply_arg="unset", default_noreply=None, keyseq=None, bind=None):
     """Evaluate any public wire method of Client end to end against a scripted sequence of reply lines / data blocks.
     -> (returned values, exception classes)"""
     f = prog.method("Client", mname)
@@ -269,6 +292,16 @@ def script_eval(prog, mname, replies, nkeys=2, noreply=False, ignore_exc=False, 
             env[p.name] = Val("arg:" + p.name)
     if noreply_arg != "unset" and f.param("noreply") is not None:
         env["noreply"] = Const(noreply_arg)  # the value the caller passes for `noreply` (None = not given)
+    for k_, v_ in (bind or {}).items():
+        if v_ is None:
+            # the argument is not given: its default
+            d_ = f.param(k_).default if f.param(k_) is not None else None
+            try:
+                env[k_] = Const(fold(d_)) if d_ is not None else TOP
+            except NotConst:
+                env[k_] = TOP
+        else:
+            env[k_] = Const(v_)
     outs = Interp(dom, f.node, prog).run(Env(env))
     if getattr(dom, "lost_constants", None):
         # a module-level table the analysis could not compute was consulted: nothing this evaluation says is exact
